@@ -52,4 +52,4 @@ package batchresource
 //@   requires forall pm *slov1alpha1.PodMetricInfo, n corev1.ResourceName :: {val(pm.PodUsage.ResourceList, n)} val(pm.PodUsage.ResourceList, n) >= 0
 //@   loop 2 invariant #distinct: podMetricMap != nil && podMetricDanglingMap != nil && podMetricMap != podMetricDanglingMap
 //@   loop 2 invariant #dominance: forall n corev1.ResourceName :: val(podsHPMaxUsedReq, n) >= val(podsHPRequest, n)
-//@   loop 2 invariant #nometrics: (forall k string :: !has(podMetricMap, k)) ==> (forall n corev1.ResourceName :: val(podsHPUsed, n) == val(podsHPRequest, n) && val(podsHPMaxUsedReq, n) == val(podsHPRequest, n))
+//@   loop 2 invariant #nometrics: (forall k string :: {has(podMetricMap, k)} !has(podMetricMap, k)) ==> (forall n corev1.ResourceName :: val(podsHPUsed, n) == val(podsHPRequest, n) && val(podsHPMaxUsedReq, n) == val(podsHPRequest, n))
